@@ -13,12 +13,13 @@ UNIT = "C04_rgb"
 IMPORTS = ["from Reduino.Actuators import RGBLed", "from Reduino.Communication import SerialMonitor",
            "from Reduino.Core import analog_read"]
 
-META_PART = ("C04_rgb: device model of set_color/on/off/fade/blink (integer fade arithmetic with round-half-away, delay (unsigned long)(x+0.5f), "
+META_PART = ("C04_rgb: device model of set_color/on/off/fade/blink (integer fade arithmetic: quotient and remainder, nearest integer with a half "
+             "going to the even neighbour - the host's int(round(x)); delay (unsigned long)(x+0.5f), "
              "skipped zero delays); clamp clause proved for all values and histories (also the interpolated fade values); device = host proved for "
-             "ALL histories of set_color/on/off/fade/blink inside the guard (C04_rgb_partial: int components 0..255, whole duration >= 0, positive "
-             "int steps/times, delay >= 0, no fade step landing exactly on .5 in any channel): same canonical per-pin level signal with whole-"
-             "millisecond time stamps, no host call raises; the rounding difference outside the guard is refuted with the witness "
-             "fade(1,0,0,100,steps=2) from black.")
+             "ALL histories of set_color/on/off/fade/blink with in-range arguments (C04_rgb: int components 0..255, whole duration >= 0, positive "
+             "int steps/times, delay >= 0 - fade steps landing exactly on .5 included since the repair of F-C04-rgb-fade-half-rounding, kind fixed): "
+             "same canonical per-pin level signal with whole-millisecond time stamps, no host call raises; the former witness "
+             "fade(1,0,0,100,steps=2) from black is replayed first on every run.")
 
 # wire op codes (C19_ledW): 3 set_color, 4 on, 5 off, 6 fade, 7 blink
 NAMES = {3: "set_color", 4: "on", 5: "off", 6: "fade", 7: "blink"}
@@ -55,6 +56,7 @@ def comp_ok(v):
 
 
 def tie_free(n, s, t):
+    """no step of a fade from s to t in n steps lands exactly on a half (statistics only: ties are inside the guard)"""
     return all((2 * (t - s) * i) % (2 * n) != n for i in range(1, n + 1))
 
 
@@ -84,9 +86,8 @@ def in_range(cur, o) -> bool:
     if c == 6:
         d = a[3] if len(a) > 3 else 1000
         n = a[4] if len(a) > 4 else 50
-        if not (all(comp_ok(v) for v in a[:3]) and d >= 0 and float(d) == int(d) and is_int(n) and n > 0):
-            return False
-        return all(tie_free(int(n), s, int(t)) for s, t in zip(cur, a[:3]))
+        # (a fade step landing exactly on .5 is in range: F-C04-rgb-fade-half-rounding is repaired)
+        return all(comp_ok(v) for v in a[:3]) and d >= 0 and float(d) == int(d) and is_int(n) and n > 0
     if c == 7:
         t = a[3] if len(a) > 3 else 1
         d = a[4] if len(a) > 4 else 200
@@ -135,6 +136,21 @@ def stream_of(case):
     return "guard"
 
 
+def tie_fades(case):
+    """number of fades of an in-guard case with at least one interpolation step exactly on a half (the region of the repaired
+    finding F-C04-rgb-fade-half-rounding)"""
+    cur, k = (0, 0, 0), 0
+    for o in case["ops"]:
+        if o["code"] == 6:
+            a = [x.v for x in o["args"]]
+            d = a[3] if len(a) > 3 else 1000
+            n = int(a[4]) if len(a) > 4 else 50
+            if d != 0 and tuple(int(t) for t in a[:3]) != cur and not all(tie_free(n, s, int(t)) for s, t in zip(cur, a[:3])):
+                k += 1
+        cur = sim_host(cur, o)
+    return k
+
+
 def gen_cases(ctx):
     quick = ctx.tier == "quick"
     cases = []
@@ -146,6 +162,20 @@ def gen_cases(ctx):
             for d in ([0, 7] if quick else [0, 1, 7, 100]):
                 cases.append({"pins": pins(), "ops": [op(3, mk(ctx, s), mk(ctx, 255 - s), mk(ctx, 0)),
                                                       op(6, mk(ctx, t), mk(ctx, 255 - t), mk(ctx, 0), mk(ctx, d), mk(ctx, n))], "family": "fade-grid"})
+    # the region of the repaired finding, densely: fades whose steps land exactly on a half - an even step count and an odd
+    # numerator (t - s) * i at i = n/2 (and n/4-multiples for n = 4, 8); rising and falling; halves whose floor is even and
+    # odd (x.5 -> down / up); all three channels, each with its own direction; literal and run-time
+    ties = [(0, 1, 2), (0, 3, 2), (1, 0, 2), (3, 0, 2), (0, 5, 2), (254, 255, 2), (255, 254, 2), (255, 252, 2), (2, 5, 2), (5, 2, 2),
+            (0, 2, 4), (0, 6, 4), (255, 249, 4), (7, 1, 4), (0, 3, 6), (255, 0, 2), (0, 255, 2), (0, 255, 6), (255, 0, 10), (100, 101, 2),
+            (101, 100, 2), (0, 4, 8), (0, 12, 8), (128, 127, 2), (127, 128, 2), (0, 255, 50), (255, 0, 50)]
+    for j, (s, t, n) in enumerate(ties):
+        for d in ([7] if quick else [1, 7, 100]):
+            for rt in (False, True):
+                g1, g2 = ties[(j + 5) % len(ties)], ties[(j + 11) % len(ties)]
+                cases.append({"pins": pins(), "ops": [op(3, Arg(s, rt), Arg(g1[0] if g1[2] == n else 255 - s, rt), Arg(g2[0] if g2[2] == n else s, rt)),
+                                                      op(6, Arg(t, rt), Arg(g1[1] if g1[2] == n else 255 - t, rt), Arg(g2[1] if g2[2] == n else t, rt),
+                                                         Arg(d, not rt), Arg(n, rt)),
+                                                      op(6, Arg(s, not rt), Arg(0), Arg(255), Arg(d, rt), Arg(n, not rt))], "family": "fade-ties"})
     for c in itertools.product([0, 1, 255], repeat=3):
         for t, d in [(1, 0), (2, 5), (True, 2.5), (3, 0.5)]:
             cases.append({"pins": pins(), "ops": [op(4, Arg(7), Arg(8), Arg(9)), op(7, *[mk(ctx, x) for x in c], mk(ctx, t), mk(ctx, d)), op(5)], "family": "blink-grid"})
@@ -159,6 +189,7 @@ def gen_cases(ctx):
                                                        op(7, Arg(v, rt), Arg(256), Arg(-1), Arg(1), Arg(0))], "family": "clamp-fixed"})
     for c in cases:
         c["stream"] = stream_of(c)
+        c["tie_fades"] = tie_fades(c) if c["stream"] == "guard" else 0
     return cases
 
 
@@ -250,25 +281,56 @@ def clamp_failures(case, rec):
     return []
 
 
-def load_findings(ctx):
+def unit_findings(ctx):
     items = {f["id"]: f for f in ctx.findings if f.get("unit") == UNIT}
-    p = C.VERIF / "known_findings.d" / "C04.json"
+    p = C.VERIF / "known_findings.d" / "C04.json"          # the source of known_findings.json: its entries win
     if p.exists():
         for f in json.loads(p.read_text()):
             if f.get("unit") == UNIT:
-                items.setdefault(f["id"], f)
-    return [f for f in items.values() if f.get("kind") != "fixed"]
+                items[f["id"]] = f
+    return list(items.values())
 
 
-def finding_reproduces(ctx, f):
+def load_findings(ctx):
+    return [f for f in unit_findings(ctx) if f.get("kind") != "fixed"]
+
+
+def witness_failures(ctx, f):
     case = case_from_replay(f["witness"]["replay"])
     recs, _ = run_batch(ctx, [case])
     rec = recs[0]
-    if rec["fw"] is None or rec["host"] is None or ctx.exes.get(UNIT) is None:
-        return False
+    if rec["fw"] is None:
+        return case, [{"what": f"the witness script is not transpiled/compiled/run: {rec['why']}", "expected": "firmware", "observed": rec["why"], "key": "rgb-witness"}]
+    if rec["host"] is None or rec.get("host_why"):
+        return case, [{"what": f"the host class raised on the witness: {rec.get('host_why')}", "expected": "no exception", "observed": rec.get("host_why"),
+                       "key": "rgb-witness"}]
     dev, _, _ = fw_items(rec["fw"])
     hev, _ = host_items(rec["host"])
-    return bool(oracle_one(case, canon_of(ctx, dev=dev), canon_of(ctx, hev=hev, pins=case["pins"])))
+    if ctx.exes.get(UNIT) is None:
+        return case, []        # no extracted canonicaliser: the verdict is already "no longer shown to hold"
+    return case, oracle_one(case, canon_of(ctx, dev=dev), canon_of(ctx, hev=hev, pins=case["pins"]))
+
+
+def finding_reproduces(ctx, f):
+    return bool(witness_failures(ctx, f)[1])
+
+
+def replay_fixed(ctx):
+    """repaired defects (kind "fixed") suppress nothing: their witnesses are replayed FIRST, and one that fails again is a VIOLATION
+    whose replay is the witness"""
+    n = 0
+    for f in unit_findings(ctx):
+        if f.get("kind") != "fixed":
+            continue
+        n += 1
+        case, F = witness_failures(ctx, f)
+        if F:
+            pub = case_pub(case)
+            pub["finding"] = f["id"]
+            pub["witness"] = f["witness"]
+            ctx.fail(f"{f.get('fixed', 'fixed: ' + f['id'])} - repaired defect {f['id']} is back: {F[0]['what']}", pub, F[0]["expected"], F[0]["observed"],
+                     key="fixed-defect-returned:" + f["id"])
+    return n
 
 
 def run_unit(ctx: C.Ctx):
@@ -288,7 +350,11 @@ def run_unit(ctx: C.Ctx):
     canons = {k: (o[1] if o and o[0] == 0 else None) for k, o in zip(canon_where, canon_out)}
 
     stats = {"cases": len(cases), "sketches": n_sketches, "streams": {}, "families": {}, "ops": {}, "arg_kinds": {"literal": 0, "run-time": 0},
-             "fw_events": 0, "host_events": 0, "oracle_cases": 0, "clamp_cases": 0, "level_changes": 0, "nontrivial_signals": 0, "fade_steps": {}}
+             "fw_events": 0, "host_events": 0, "oracle_cases": 0, "clamp_cases": 0, "level_changes": 0, "nontrivial_signals": 0, "fade_steps": {},
+             "in_guard_cases_with_a_fade_step_on_a_half": 0, "in_guard_fades_with_a_step_on_a_half": 0,
+             "fixed_witnesses_replayed_first": getattr(ctx, "c04_fixed_replayed", {}).get(UNIT)}
+    if stats["fixed_witnesses_replayed_first"] is None:
+        stats["fixed_witnesses_replayed_first"] = replay_fixed(ctx)
     distinct, seen_fail = set(), set()
     for n, (c, r, m) in enumerate(zip(cases, recs, model)):
         stats["streams"][c["stream"]] = stats["streams"].get(c["stream"], 0) + 1
@@ -337,6 +403,9 @@ def run_unit(ctx: C.Ctx):
             if not m[2]:
                 ctx.disagree("host model raises inside the guard", case_pub(c), m[2], None)
         stats["oracle_cases"] += 1
+        if c.get("tie_fades"):
+            stats["in_guard_cases_with_a_fade_step_on_a_half"] += 1
+            stats["in_guard_fades_with_a_step_on_a_half"] += c["tie_fades"]
         if cd is not None:
             stats["level_changes"] += len(cd[0])
             if len(cd[0]) >= 2:
@@ -359,14 +428,17 @@ def run_unit(ctx: C.Ctx):
         "evaluations": stats["oracle_cases"] + stats["clamp_cases"],
         "distinct_nontrivial": len(distinct),
         "rule": "RGB cases = command sequences on a fresh RGBLed: a grid of fades between boundary colours (7x7 start/target values per channel, steps "
-                "1-5 (thorough: up to 16), durations 0/7 (thorough: 0/1/7/100)), a blink grid, seeded random sequences of 2-8 commands, and a clamp stream "
+                "1-5 (thorough: up to 16), durations 0/7 (thorough: 0/1/7/100)), a grid of fades with steps exactly on a half (27 (start, target, steps) "
+                "triples: rising/falling, halves rounding down and up to the even neighbour, steps 2-50; all three channels; then a second fade back), "
+                "a blink grid, seeded random sequences of 2-8 commands, and a clamp stream "
                 "with out-of-range / non-int components, steps and times (firmware + device model only). A case is inside the guard iff every command "
-                "is in range at the colour the host has when it is issued (a fade must not land exactly on .5 in any channel at any step). Arguments "
+                "is in range (fades landing exactly on .5 included; their number is in distribution.in_guard_fades_with_a_step_on_a_half). Arguments "
                 "are independently literal or run-time. evaluations = in-guard cases checked by the signal oracle + cases checked by the clamp oracle.",
         "samples": [case_pub(c) for c in cases[:1] + cases[-1:]],
         "distribution": stats,
-        "guard": "components ints 0..255 (the host raises otherwise); fade: duration >= 0 and whole, steps a positive int, no interpolation step "
-                 "whose exact value has fractional part 1/2 in any channel (outside: F-C04-rgb-fade-half-rounding); blink: times a positive int, delay >= 0",
+        "guard": "components ints 0..255 (the host raises otherwise); fade: duration >= 0 and whole, steps a positive int; blink: times a positive int, "
+                 "delay >= 0.  No finding is excluded: F-C04-rgb-fade-half-rounding is repaired (kind fixed); fades with an interpolation step whose exact "
+                 "value has fractional part 1/2 are generated and compared",
         "unmodelled": ["float32 rounding of duration/steps + 0.5f (exact rationals in the model; generated durations <= 1000, steps <= 50)",
                        "C int / long overflow", "negative delays", "RGB getters do not exist on the device (the parser rejects them)"],
         "known_replayed": replayed,
